@@ -243,6 +243,7 @@ type CopyPlan struct {
 type Stmt struct {
 	ID          string
 	Cols        wire.Columns
+	ReuseRow    bool         // every row is written from one scratch slice that the handler re-uses (a scan loop)
 	Define      wire.Columns // not declared with the statement: the handler announces them itself through DataWriter.Define
 	Params      []oid.Oid
 	ParseParams bool // use wire.ParseParameters(query) for the declared parameters
@@ -390,11 +391,20 @@ func runStmt(ctx context.Context, s *Sess, st *Stmt, w wire.DataWriter, params [
 			c.CB("define", fmt.Sprintf("Columns() reports %d columns after Define of %d", len(got), len(st.Define)))
 		}
 	}
+	var scratch []any
 	for i, op := range st.Ops {
 		r := OpRes{Stmt: st.ID, Idx: i, K: op.K, W0: c.WOff()}
 		var err error
 		switch op.K {
 		case "row", "badrow", "arity":
+			if st.ReuseRow && op.K == "row" {
+				if len(scratch) != len(op.Vals) {
+					scratch = make([]any, len(op.Vals))
+				}
+				copy(scratch, op.Vals)
+				err = w.Row(scratch)
+				break
+			}
 			err = w.Row(op.Vals)
 		case "complete":
 			err = w.Complete(op.Tag)
